@@ -245,18 +245,38 @@ def gen_skewed(rng, kind, bits):
 
 # ---------------------------------------------------------------------------------- running the two sides
 class Side:
+    HANG_BUDGET = 6
+
     def __init__(self, ctx):
         self.ctx = ctx
         self.exe = {}
+        self.hangs = 0
+        self.skipped = 0
 
     def build(self, lvls):
         for l in lvls:
             self.exe[l] = self.ctx.cc_harness(HARNESS, os.path.join(self.ctx.tmp, "drv_lll_%d" % l), l)
 
     def c(self, lvl, lines, timeout=3000):
-        rc, out, err = vlib.run_c([self.exe[lvl]], lines, timeout=timeout)
-        if len(out) < len(lines):
-            out += ["<no output: C driver stopped rc=%d %s>" % (rc, err[-300:].replace("\n", " "))] * (len(lines) - len(out))
+        """run op lines on the level's C driver.  Lines of the form "! T op" run forked under alarm(T); they are sent
+        in batches and once HANG_BUDGET calls have timed out / crashed in this check the remaining ones are answered
+        "skipped" (a routine that hangs on most inputs must not eat the time budget; the hangs themselves are
+        reported as violations by the stages)."""
+        out = []
+        forked = bool(lines) and all(x.startswith("! ") for x in lines)
+        step = 40 if forked else max(len(lines), 1)
+        for b0 in range(0, len(lines), step):
+            chunk = lines[b0:b0 + step]
+            if forked and self.hangs >= self.HANG_BUDGET:
+                out += ["skipped"] * len(chunk)
+                self.skipped += len(chunk)
+                continue
+            rc, o, err = vlib.run_c([self.exe[lvl]], chunk, timeout=timeout)
+            if len(o) < len(chunk):
+                o += ["<no output: C driver stopped rc=%d %s>" % (rc, err[-300:].replace("\n", " "))] * (len(chunk) - len(o))
+            if forked:
+                self.hangs += sum(1 for x in o if x.startswith("timeout"))
+            out += o
         return out
 
     def lean(self, lines):
@@ -348,13 +368,15 @@ def stage_lll(ctx, side):
     outs = [None] * len(cases)
     lines = [None] * len(cases)
     for l in (1, 3, 5):
-        ls = []
         for i in by_lvl[l]:
             tag, _, q, den, lat = cases[i]
             lines[i] = "lll.run %s %s %s" % (hx(q), hx(den), mat_hex(lat))
-            ls.append("! 20 " + lines[i])
-        for i, o in zip(by_lvl[l], side.c(l, ls)):
+        for i, o in zip(by_lvl[l], side.c(l, ["! 5 " + lines[i] for i in by_lvl[l]])):
             outs[i] = o
+    keep = [i for i in range(len(cases)) if outs[i] != "skipped"]
+    cases = [cases[i] for i in keep]
+    lines = [lines[i] for i in keep]
+    outs = [outs[i] for i in keep]
     # Lean certificate check on every output + python oracle
     lean_lines, lean_idx = [], []
     strict_ok = 0
@@ -472,13 +494,15 @@ def stage_rank(ctx, side):
         by[c[1]].append(i)
     res = {}
     for l in (1, 3, 5):
-        ls = ["! 10 lll.run %s 1 %s" % (hx(cases[i][2]), mat_hex(cases[i][3])) for i in by[l]]
+        ls = ["! 5 lll.run %s 1 %s" % (hx(cases[i][2]), mat_hex(cases[i][3])) for i in by[l]]
         for i, o in zip(by[l], side.c(l, ls) if ls else []):
             res[i] = o
     stats = {}
     for i, (tag, l, q, lat) in enumerate(cases):
         assert det_int(lat) == 0
         o = res[i]
+        if o == "skipped":
+            continue
         w = o.split()
         ctx.case("rank:%s:%d" % (tag, i))
         replay = dict(op="lll.run %s 1 %s" % (hx(q), mat_hex(lat)), level=l, c_output=o[:600],
@@ -599,8 +623,8 @@ def gen_m2(rng, bits, kind):
 
 
 def norm_c(o):
-    """C side: GMP aborts / division by zero are the model's `abort`"""
-    if o.startswith("crash") or o.startswith("timeout"):
+    """C side: GMP aborts / division by zero are the model's `abort`; a hang stays `timeout` (never predicted)"""
+    if o.startswith("crash"):
         return "abort"
     return o
 
@@ -648,13 +672,20 @@ def stage_dim2(ctx, side):
         x, y = rsigned(rng, 3), rsigned(rng, 3)
         ops.append(("bac", "d2.bac %s %s %s %s %s %s %s %s" % (hx(q), hx(x), hx(y), hx(tmc[0]), hx(tmc[1]), mh, hx(bound), hx(p)), None))
     lines = [o[1] for o in ops]
-    cout = [norm_c(o) for o in side.c(1, ["! 10 " + l for l in lines])]
+    cout = [norm_c(o) for o in side.c(1, ["! 5 " + l for l in lines])]
     mout = side.lean(lines)
     dis = []
     aborts = 0
     for (kind, line, data), c, m in zip(ops, cout, mout):
+        if c == "skipped":
+            continue
         ctx.case("d2:" + kind)
         hist(ctx, "dim2_ops", kind)
+        if c.startswith("timeout") or c.startswith("<no"):
+            ctx.violation("d2:%s:hang" % kind, "dimension-2 routine does not return (%s)" % c[:40],
+                          dict(op=line, c_output=c, model_output=m, how="echo '! 5 <op>' | drv_lll_1"))
+            dis.append(dict(op=line, impl=c, model=m))
+            continue
         if c == "abort":
             aborts += 1
         # property oracle, independent of the model, on the C result
@@ -711,9 +742,11 @@ def stage_resp(ctx, side):
             seed = rng.bits(60)
             lines.append("resp.sample %s %s %s %s" % (hx(seed), hx(content), hx(denom), mat_hex(lat)))
             metas.append((content, denom, lat, g))
-        outs = side.c(l, ["! 30 " + x for x in lines])
+        outs = side.c(l, ["! 10 " + x for x in lines])
         mlines, midx = [], []
         for k, (line, (content, denom, lat, g), o) in enumerate(zip(lines, metas, outs)):
+            if o == "skipped":
+                continue
             ctx.case("resp:%d:%d" % (l, k))
             replay = dict(op=line, level=l, generated_by=g, how="echo '<op>' | drv_lll_<level>", c_output=o[:800])
             parts = [x.strip() for x in o.split("|")]
@@ -796,6 +829,9 @@ def stages(ctx):
         t = time.time()
         fn(ctx, side)
         ctx.log("stage %s done in %.1fs (%d evaluations so far)" % (name, time.time() - t, ctx.evaluations))
+    if side.skipped:
+        ctx.coverage["calls_skipped_after_hang_budget"] = side.skipped
+        ctx.log("%d forked calls skipped after %d hangs" % (side.skipped, side.hangs))
 
 
 def search(ctx):
